@@ -216,12 +216,12 @@ pub fn record(args: &[String], lines: impl Iterator<Item = String>) {
         }
     } else {
         // deep trees: seeded random histories mixing on-path, sibling and random prefixes of every length
-        for (n, bits) in [(0usize, 8usize), (1, 64), (2, 320), (3, 17), (4, 129)].iter() {
+        for (n, bits) in [(0usize, 8usize), (1, 64), (2, 320), (3, 17), (4, 129), (5, 1), (6, 1)].iter() {
             for h in 0..max.max(1) {
                 let alpha: Vec<bool> = (0..*bits).map(|_| rng.below(2) == 1).collect();
                 let mut evals = Vec::new();
                 for _ in 0..12 {
-                    let len = match rng.below(6) { 0 => 1, 1 => *bits, 2 => *bits - 1, _ => 1 + rng.below(*bits as u64) as usize };
+                    let len = match rng.below(6) { 0 => 1, 1 => *bits, 2 => (*bits - 1).max(1), _ => 1 + rng.below(*bits as u64) as usize };
                     let mut p: Vec<bool> = alpha[..len].to_vec();
                     match rng.below(4) { 0 => { let i = rng.below(len as u64) as usize; p[i] = !p[i]; } 1 => { p[len - 1] = !p[len - 1]; } _ => {} }
                     evals.push((rng.below(2) as usize, p, None));
